@@ -163,6 +163,8 @@ class Exec(Engine):
             return VMap(t)
         if T[0] == 'any':
             return VAny(t)
+        if T[0] == 'list':
+            return VList(T[1], t)
         raise Unsupported('global %s of type %s' % (key, T))
 
     def from_resolved(self, r, node=None):
@@ -648,7 +650,7 @@ class Exec(Engine):
 
         def after(s, vs):
             if not s.spec and any(isinstance(v, VU) for v in vs) and \
-                    any(isinstance(op, (ast.Lt, ast.LtE, ast.Gt, ast.GtE)) for op in node.ops):
+                    any(isinstance(op, (ast.Lt, ast.LtE, ast.Gt, ast.GtE, ast.In, ast.NotIn)) for op in node.ops):
                 # ordering comparisons on a union: decide the alternative first (the obligation
                 # "not None" must be proved under the alternative's guard)
                 res = []
